@@ -566,7 +566,7 @@ pub fn run(e: &dyn Engine, o: &Opts) -> Report {
     let mut batch: Vec<String> = Vec::new();
     let pre: Option<Vec<Outcome>> = if e.isolated() {
         let cs: Vec<Vec<String>> = all.iter().map(|(_, c)| c.lines.clone()).collect();
-        let mut outs = run_isolated(e, &cs, 20);
+        let mut outs = run_isolated(e, &cs, 30);
         // A crash or hang decides a property, so it has to be a fact about the code and not about the machine: every case
         // on which the child process died or stopped responding is run again on its own, up to twice.  If it then completes,
         // the first observation is attributed to the load of the machine (recorded as `infra.crash-not-reproduced`) and the
@@ -575,7 +575,7 @@ pub fn run(e: &dyn Engine, o: &Opts) -> Report {
         for i in crashed.into_iter().take(12) {
             let mut again = None;
             for _ in 0..2 {
-                let o = run_isolated(e, &[cs[i].clone()], 30).pop().unwrap();
+                let o = run_isolated(e, &[cs[i].clone()], 60).pop().unwrap();
                 if !(o.hung && o.resp.first().map(|r| r == "CRASH" || r == "not-run").unwrap_or(false)) {
                     again = Some(o);
                 } else {
